@@ -218,6 +218,7 @@ def run(ctx):
 
 # ----------------------------------------------------------------------------------------------------------------------
     check_lexicographic(ctx)
+    check_line_aliases(ctx)
 
 
 def is_line_text(u: Units, e) -> bool:
@@ -420,3 +421,149 @@ def check_lexicographic(ctx):
                       sample={'function': fi.key, 'compare': norm(b, 100), 'reviewed': rv})
     if n < 15:
         raise AnalysisError(f'only {n} position comparisons found')
+
+
+# ---- R6.6 ------------------------------------------------------------------------------------------------------------
+
+def check_line_aliases(ctx):
+    """A local bound to one source line (`X = lines[<P>ln]`) stands for line <P>ln: (a) it must not be used after `<P>ln` has been
+    rebound without being re-read (stale line), (b) columns applied to it (`X[:<Q>col]`, `X.c2b(<Q>col)`, `X.encode()[:<Q>col_offset]`)
+    belong to the same line family when the column and its line are bound together (parameters / one tuple unpack)."""
+    import re
+    from ..cfg import CFG, subnodes
+    ctx.rule('R6.6', 'a local alias of one source line is not used after its line variable was rebound, and is indexed by columns of its own line', 25)
+    LINES = ('lines', 'ls', 'self.root._lines', 'root._lines', 'self._lines')
+    n = 0
+    for fi in ctx.repo.all_funcs():
+        if isinstance(fi.node, ast.Lambda):
+            continue
+        defs = {}   # alias -> [(assign node, ln name)]
+        for x in walk_no_nested(fi.node):
+            if isinstance(x, (ast.Assign, ast.NamedExpr)):
+                t = x.targets[0] if isinstance(x, ast.Assign) else x.target
+                v = x.value
+                if isinstance(t, ast.Name) and isinstance(v, ast.Subscript) and isinstance(v.slice, ast.Name) and \
+                        (norm(v.value) in LINES or norm(v.value).endswith('lines')) and re.match(r'^(.*?)_?ln$', v.slice.id):
+                    defs.setdefault(t.id, []).append((x, v.slice.id))
+        if not defs:
+            continue
+        # aliases that are also bound to something else are not line aliases
+        other = set()
+        for x in walk_no_nested(fi.node):
+            if isinstance(x, ast.Name) and isinstance(x.ctx, ast.Store) and x.id in defs:
+                pass
+        cfg = CFG(fi.node)
+        node_of = {}
+        for nd in cfg.nodes:
+            for x in subnodes(cfg, nd):
+                node_of[id(x)] = nd
+            if nd.kind == 'iter':
+                for x in ast.walk(nd.ast.target):
+                    node_of[id(x)] = nd
+        stores = {}      # name -> [cfg node ids where it is (re)bound]
+        aug = {id(x.target) for x in walk_no_nested(fi.node) if isinstance(x, ast.AugAssign)}
+        for x in walk_no_nested(fi.node):
+            # `ln += 1` converts a line index into a 1-based lineno (or steps within a loop that re-reads the line): not a move to other text
+            if isinstance(x, ast.Name) and isinstance(x.ctx, ast.Store) and id(x) in node_of and id(x) not in aug:
+                stores.setdefault(x.id, set()).add(node_of[id(x)].id)
+        for alias, dl in defs.items():
+            def_nodes = {node_of[id(d)].id for d, _ in dl if id(d) in node_of}
+            all_alias_stores = stores.get(alias, set())
+            if all_alias_stores - def_nodes:
+                continue        # also bound to non-line values: not a pure line alias
+            for d, lnname in dl:
+                if id(d) not in node_of:
+                    continue
+                n += 1
+                dn = node_of[id(d)].id
+                rebinds = stores.get(lnname, set()) - {dn}
+                stale_use = None
+                if rebinds:
+                    # rebinding of the line variable reachable from the alias definition without a re-definition of the alias ...
+                    r1 = cfg.reachable(dn, lambda n_, lab, s: lab != 'exc', stop=all_alias_stores - {dn})
+                    for r in rebinds & r1:
+                        # ... and a use of the alias reachable from there, again without re-definition
+                        r2 = cfg.reachable(r, lambda n_, lab, s: lab != 'exc', stop=all_alias_stores)
+                        for x in walk_no_nested(fi.node):
+                            if isinstance(x, ast.Name) and x.id == alias and isinstance(x.ctx, ast.Load) and id(x) in node_of and \
+                                    node_of[id(x)].id in r2 and node_of[id(x)].id not in all_alias_stores:
+                                stale_use = x
+                                break
+                        if stale_use is not None:
+                            break
+                ctx.check('R6.6', stale_use is None, fi.module, fi.qualname, f'{alias} = lines[{lnname}] ... {lnname} rebound ... {alias} used',
+                          f'`{alias}` still holds the text of the old line `{lnname}` after `{lnname}` was rebound: columns of the new line are '
+                          f'converted / sliced on the wrong text', getattr(stale_use, 'lineno', d.lineno),
+                          sample={'function': fi.key, 'alias': alias, 'line_variable': lnname})
+        # ---- (b) columns applied to a line alias (and to its .encode() alias) belong to the alias' own line
+        ln_of = {}
+        for alias, dl in defs.items():
+            lns = {l for _, l in dl}
+            if len(lns) == 1 and not (stores.get(alias, set()) - {node_of[id(d)].id for d, _ in dl if id(d) in node_of}):
+                ln_of[alias] = next(iter(lns))
+        for x in walk_no_nested(fi.node):      # second level: b = <alias>.encode()
+            if isinstance(x, (ast.Assign, ast.NamedExpr)):
+                t = x.targets[0] if isinstance(x, ast.Assign) else x.target
+                v = x.value
+                if isinstance(t, ast.Name) and isinstance(v, ast.Call) and call_name(v) == 'encode' and isinstance(v.func.value, ast.Name) and \
+                        v.func.value.id in ln_of and len(stores.get(t.id, ())) == 1:
+                    ln_of[t.id] = ln_of[v.func.value.id]
+
+        def base_alias(e):
+            if isinstance(e, ast.Name) and e.id in ln_of:
+                return e.id
+            if isinstance(e, ast.Call) and call_name(e) == 'encode' and isinstance(e.func.value, ast.Name) and e.func.value.id in ln_of:
+                return e.func.value.id
+            return None
+
+        sep = lambda x_: x_ + ('_' if x_ and not x_.endswith('_') else '')
+        params = fi.params()
+        for x in walk_no_nested(fi.node):
+            al = cols = None
+            if isinstance(x, ast.Subscript) and isinstance(x.slice, ast.Slice):
+                al = base_alias(x.value)
+                cols = [b for b in (x.slice.lower, x.slice.upper) if isinstance(b, ast.Name)]
+            elif isinstance(x, ast.Call) and call_name(x) in ('c2b', 'b2c') and x.args and isinstance(x.func, ast.Attribute):
+                al = base_alias(x.func.value)
+                cols = [x.args[0]] if isinstance(x.args[0], ast.Name) else []
+            if not al or not cols:
+                continue
+            p_ = re.match(r'^(.*?)_?ln$', ln_of[al]).group(1)
+            for cnode in cols:
+                mc = re.match(r'^(.*?)_?col(_offset)?$', cnode.id)
+                if not mc:
+                    continue
+                q = mc.group(1)
+                if q != p_:
+                    qln = sep(q) + 'ln'
+                    together = qln in params and cnode.id in params
+                    for y in walk_no_nested(fi.node):
+                        if isinstance(y, ast.Assign) and isinstance(y.targets[0], ast.Tuple):
+                            ids = {e.id for e in y.targets[0].elts if isinstance(e, ast.Name)}
+                            if qln in ids and cnode.id in ids:
+                                together = True
+                    if not together:
+                        continue
+                    # same line by a dominating test / assert `<P>ln == <Q>ln`
+                    par_ = getattr(fi, '_par64', None) or parent_map(fi.node)
+                    fi._par64 = par_
+                    pair = {ln_of[al], qln}
+                    same = False
+                    for t_, truth in enclosing_tests(fi.node, x, par_):
+                        for cmp_ in ([t_] if isinstance(t_, ast.Compare) else [v_ for v_ in getattr(t_, 'values', []) if isinstance(v_, ast.Compare)]
+                                     if truth and isinstance(getattr(t_, 'op', None), ast.And) or isinstance(t_, ast.Compare) else []):
+                            if len(cmp_.ops) == 1 and isinstance(cmp_.ops[0], ast.Eq if truth else ast.NotEq) and \
+                                    {norm(cmp_.left), norm(cmp_.comparators[0])} == pair:
+                                same = True
+                    for y in fi.node.body:
+                        if isinstance(y, ast.Assert) and isinstance(y.test, ast.Compare) and len(y.test.ops) == 1 and isinstance(y.test.ops[0], ast.Eq) \
+                                and {norm(y.test.left), norm(y.test.comparators[0])} == pair and y.lineno < x.lineno:
+                            same = True
+                    if same:
+                        continue
+                n += 1
+                ctx.check('R6.6', q == p_, fi.module, fi.qualname, norm(x, 70),
+                          f'`{al}` is the text of line `{ln_of[al]}` but is indexed / converted with column `{cnode.id}`, which belongs to line '
+                          f'`{sep(q)}ln`: wrong whenever the two lines differ', x.lineno, sample={'function': fi.key, 'expr': norm(x, 70)})
+    if n < 25:
+        raise AnalysisError(f'only {n} line aliases found')
